@@ -21,7 +21,9 @@ def phase_covariance(r, r0, L0):
         L0 (float): Outer scale of turbulence in metres
     """
     # Make sure everything is a float to avoid nasty surprises in division!
-    r = numpy.float32(r)
+    # double precision: in single precision the covariance matrices of finely sampled screens (pixel scale below
+    # ~1e-4 L0) are inconsistent enough to make the infinite-screen row recursion unstable
+    r = numpy.float64(r)
     r0 = float(r0)
     L0 = float(L0)
 
